@@ -247,6 +247,131 @@ func (L *relay15) attackOne(from, other string, oldSession [][]byte) {
 	}
 }
 
+// crossPaths: a session of end-to-end frames of `from`, each identified by its end-to-end counter, delivered to B in
+// adversarial orders over BOTH paths: through the relay (the withheld relay packet, or the frame wrapped again by
+// the relay) and directly (the bare inner frame - outer header and tag stripped, which needs no key - from an
+// arbitrary underlay address). One counter space, one replay window: whichever path a frame arrives on first, every
+// later copy on any path must be refused, and a refused copy must not roam the tunnel.
+func (L *relay15) crossPaths(from string, nframes int) {
+	c, w := L.c, L.w
+	b := w.n(r15B)
+	type frame struct {
+		held, inner, mark []byte
+		ctr               uint64
+		ridx              uint32
+	}
+	var frames []frame
+	for i := 0; i < nframes; i++ {
+		held, mark := L.sendAndHold(from)
+		if held == nil {
+			panic("relaynet15: no relayed packet from " + from)
+		}
+		var oh, ih header.H
+		_ = oh.Parse(held)
+		inner := append([]byte(nil), held[16:len(held)-16]...)
+		_ = ih.Parse(inner)
+		frames = append(frames, frame{held: held, inner: inner, mark: mark, ctr: ih.MessageCounter, ridx: oh.RemoteIndex})
+	}
+	// path codes: 0 the withheld relay packet, 1 the frame wrapped again by the relay, 2 the bare frame sent directly
+	type step struct{ f, path int }
+	var script []step
+	for i := range frames {
+		switch i % 4 {
+		case 0: // through the relay, then the stripped frame directly, then wrapped again
+			script = append(script, step{i, 0}, step{i, 2}, step{i, 1})
+		case 1: // directly first, then through the relay twice
+			script = append(script, step{i, 2}, step{i, 1}, step{i, 0})
+		case 2: // directly twice (two addresses), then through the relay
+			script = append(script, step{i, 2}, step{i, 2}, step{i, 0})
+		default: // wrapped by the relay, the original relay packet, then directly
+			script = append(script, step{i, 1}, step{i, 0}, step{i, 2})
+		}
+	}
+	// reorder: interleave the frames (every frame's own order of paths is kept, so "first arrival" stays defined)
+	for i := len(script) - 1; i > 0; i-- {
+		j := c.Intn(i + 1)
+		if script[i].f != script[j].f {
+			ok := true
+			lo, hi := j, i
+			for k := lo; k <= hi; k++ { // swapping must not move a step across another step of the same frame
+				if k != i && script[k].f == script[i].f || k != j && script[k].f == script[j].f {
+					ok = false
+				}
+			}
+			if ok {
+				script[i], script[j] = script[j], script[i]
+			}
+		}
+	}
+	owner := w.n(from)
+	var lits []string
+	var descs []map[string]any
+	for n, st := range script {
+		f := frames[st.f]
+		ot, _ := b.Tunnel(owner.vpn)
+		b.ClearIn()
+		b.DrainUDP()
+		b.DrainTun()
+		before := b.Digest()
+		src := w.n(r15R).udp
+		var pkt []byte
+		switch st.path {
+		case 0:
+			pkt = f.held
+		case 1:
+			pkt = L.wrap(f.ridx, f.inner)
+		default:
+			src = netip.AddrPortFrom(netip.AddrFrom4([4]byte{198, 51, 100, byte(10 + n)}), uint16(30000+n))
+			pkt = f.inner
+		}
+		pn := b.Inject(src, pkt)
+		tun := b.DrainTun()
+		b.DrainUDP()
+		after := b.Digest()
+		delivered, toOwner := false, pn == ""
+		for _, p := range tun {
+			if bytes.Contains(p, f.mark) {
+				delivered = true
+			} else {
+				toOwner = false // something else than the sender's plaintext reached the tun
+			}
+			if len(p) >= 20 {
+				if sa, _ := netip.AddrFromSlice(p[12:16]); sa != owner.vpn {
+					toOwner = false
+				}
+			}
+		}
+		if len(tun) > 1 {
+			toOwner = false
+		}
+		for l, bt := range before.Tunnels { // only the owner's tunnel and the relay's may have moved
+			at := after.Tunnels[l]
+			if at == nil || (bt["win"] == at["win"] && bt["in"] == at["in"] && bt["remote"] == at["remote"]) {
+				continue
+			}
+			t, _ := b.TunnelByLocal(l)
+			if l != ot.Local && len(t.VpnAddrs) > 0 && t.VpnAddrs[0] != w.n(r15R).vpn {
+				toOwner = false
+			}
+		}
+		roamed := before.Tunnels[ot.Local]["remote"] != after.Tunnels[ot.Local]["remote"]
+		if roamed { // put the tunnel back on the relay path for the next step
+			b.SetRemote(ot.Local, netip.AddrPort{})
+		}
+		lits = append(lits, hx.Tuple(hx.N(f.ctr), hx.Bool(st.path != 2), hx.Bool(delivered), hx.Bool(toOwner), hx.Bool(roamed)))
+		descs = append(descs, map[string]any{"e2e_counter": f.ctr, "path": []string{"relay packet as forwarded", "frame wrapped again by the relay", "bare inner frame sent directly"}[st.path],
+			"src": src.String(), "delivered": delivered, "to_owner": toOwner, "roamed": roamed})
+	}
+	w.settle(2)
+	nd := 0
+	for _, d := range descs {
+		if d["delivered"].(bool) {
+			nd++
+		}
+	}
+	L.cw.Add(hx.App("RelayE2E_corr.CCross", hx.List(lits)), "cross-path", nd > 0, map[string]any{"from": from, "frames": nframes, "steps": descs})
+}
+
 func relay15Run(c *hx.Ctx) {
 	specs := []outsNodeSpec{
 		{name: r15A, vpn: "10.128.0.2/24", udp: "10.0.0.2:4242"},
@@ -304,6 +429,10 @@ func relay15Run(c *hx.Ctx) {
 	for round := 0; round < rounds; round++ {
 		L.attackOne(r15A, r15A2, old)
 		L.attackOne(r15A2, r15A, old)
+		for k := 0; k < 3; k++ {
+			L.crossPaths(r15A, 4+k)
+			L.crossPaths(r15A2, 3+k)
+		}
 		// record relay packets of this session, then R tears its tunnels down; the endpoints find the relay again
 		held, _ := L.sendAndHold(r15A)
 		if held != nil {
@@ -341,6 +470,7 @@ func relay15Run(c *hx.Ctx) {
 		}
 	}
 	L.attackOne(r15A, r15A2, old)
+	L.crossPaths(r15A, 8)
 	// what R saw and holds
 	leak := 0
 	for _, m := range L.markers {
